@@ -351,3 +351,136 @@ Proof.
     + intros i I. unfold inls in I. destruct eb; apply in_map_iff in I; destruct I as [js [E I]]; subst; auto.
     + rewrite E. cbn [bind]. destruct eb; simpl; eauto.
 Qed.
+
+(* ---------- totality with a failing temperature solver (hf > 0) ---------- *)
+Lemma imol_mix_pkg rs inls r1 : imol_mix_from rs inls = Ok r1 -> spkg r1 = spkg rs.
+Proof.
+  destruct rs as [c|m]; simpl; intros H.
+  - destruct (cmix_from c inls) as [c'|] eqn:E; simpl in H; [|discriminate]. inversion H; subst.
+    unfold cmix_from in E. destruct inls; [discriminate|].
+    destruct (cparts_all c (i :: inls)); simpl in E; [|discriminate]. inversion E; reflexivity.
+  - destruct (mmix_from m inls) as [m'|] eqn:E; simpl in H; [|discriminate]. inversion H; subst.
+    unfold mmix_from in E.
+    destruct (resolve_all _ _); simpl in E; [|discriminate].
+    destruct (mcontrib_all _ inls); simpl in E; [|discriminate]. inversion E; subst. simpl.
+    destruct (existsb _ _); auto. unfold expand_phases. destruct (existsb _ _); reflexivity.
+Qed.
+
+Lemma set_phases_pkg s phs s' : set_phases s phs = Ok s' -> spkg s' = spkg s.
+Proof.
+  unfold set_phases. destruct s as [c|m].
+  - destruct (psort phs) as [|p [|p' t]]; intros H; try (inversion H; reflexivity);
+      (destruct (c_to_material c _) as [m0|] eqn:E; simpl in H; [|discriminate]; inversion H; subst;
+       unfold c_to_material in E; destruct (row_any (crow c));
+       [destruct (phase_index _ _); simpl in E; [|discriminate]|]; inversion E; reflexivity).
+  - destruct (psort phs) as [|p [|p' t]]; intros H; try (inversion H; reflexivity);
+      (destruct (phases_eqb _ (mphases m)); [inversion H; reflexivity|];
+       destruct (m_to_material m _) as [m0|] eqn:E; simpl in H; [|discriminate]; inversion H; subst;
+       unfold m_to_material in E; destruct (m_to_material_rows _ _ _ _); simpl in E; [|discriminate];
+       inversion E; reflexivity).
+Qed.
+
+Lemma phase_index_of_mem p l : pmem p l = true -> exists i, phase_index p l = Ok i.
+Proof. intros H. apply in_indexer_index. unfold in_indexer. rewrite H. reflexivity. Qed.
+
+Lemma phase_str_in m p r : In (p, r) (map2 (fun p r => (p, r)) (mphases m) (mrows m)) -> row_any r = true ->
+  In (lowerp p) (phase_str (MS m)).
+Proof.
+  intros I RA. simpl.
+  assert (forall grp, pmem p grp = true -> group_empty m grp = false) as GE.
+  { intros grp PM. unfold group_empty. apply negb_false_iff. apply existsb_exists.
+    exists (p, r). split; auto. simpl. rewrite PM, RA. reflexivity. }
+  destruct p; simpl.
+  - rewrite (GE [Pl; PL]) by reflexivity. apply in_app_iff. right. apply in_app_iff. left. left; auto.
+  - rewrite (GE [Ps; PS]) by reflexivity. apply in_app_iff. right. apply in_app_iff. right. left; auto.
+  - rewrite (GE [Pg]) by reflexivity. apply in_app_iff. left. left; auto.
+  - rewrite (GE [Pl; PL]) by reflexivity. apply in_app_iff. right. apply in_app_iff. left. left; auto.
+  - rewrite (GE [Ps; PS]) by reflexivity. apply in_app_iff. right. apply in_app_iff. right. left; auto.
+Qed.
+
+Lemma m_to_material_rows_total sp sr ps acc :
+  (forall p r, In (p, r) (map2 (fun p r => (p, r)) sp sr) -> row_any r = true -> pmem (lowerp p) ps = true) ->
+  exists rows, m_to_material_rows sp sr ps acc = Ok rows.
+Proof.
+  revert sr acc; induction sp as [|p sp IH]; intros [|r sr] acc H; simpl; eauto.
+  destruct (row_any r) eqn:RA.
+  - assert (exists i, phase_index (if pmem p ps then p else swapcase p) ps = Ok i) as [i E].
+    { destruct (pmem p ps) eqn:PM; [apply phase_index_of_mem; auto|].
+      apply phase_index_of_mem. specialize (H p r (or_introl eq_refl) RA).
+      destruct p; simpl in *; congruence. }
+    rewrite E. simpl. apply IH. intros; eapply H; eauto. right; auto.
+  - apply IH. intros; eapply H; eauto. right; auto.
+Qed.
+
+Lemma set_phases_total s phs : (forall p, In p (phase_str s) -> In p phs) -> exists s', set_phases s phs = Ok s'.
+Proof.
+  intros H. unfold set_phases.
+  assert (forall p, In p (phase_str s) -> pmem p (psort phs) = true) as PM
+    by (intros p I; rewrite pmem_psort; apply pmem_In; auto).
+  destruct s as [c|m].
+  - assert (forall ps, pmem (cphase c) ps = true -> exists m0, c_to_material c ps = Ok m0) as CM.
+    { intros ps P. unfold c_to_material. destruct (row_any (crow c)); [|eauto]. rewrite P.
+      destruct (phase_index_of_mem _ _ P) as [i E]. rewrite E. simpl. eauto. }
+    specialize (PM (cphase c) (or_introl eq_refl)).
+    destruct (psort phs) as [|p [|p' t]]; [| eauto |]; destruct (CM _ PM) as [m0 E]; rewrite E; simpl; eauto.
+  - assert (forall ps, (forall p, In p (phase_str (MS m)) -> pmem p ps = true) -> exists m0, m_to_material m ps = Ok m0) as MM.
+    { intros ps P. unfold m_to_material.
+      destruct (m_to_material_rows_total (mphases m) (mrows m) ps (map (fun _ => vzero (psize (mpkg m))) ps)) as [rows E].
+      - intros p r I RA. apply P. eapply phase_str_in; eauto.
+      - rewrite E. simpl. eauto. }
+    destruct (psort phs) as [|p [|p' t]] eqn:EP; [| eauto |];
+      (destruct (phases_eqb _ (mphases m)); [eauto|]; destruct (MM _ PM) as [m0 E]; rewrite E; simpl; eauto).
+Qed.
+
+(* Whatever the number hf of failing temperature solves: the mix returns, or the only error that can
+   come out is the solver giving up (RuntimeError) at the end of the multi-phase fallback, which
+   needs energy balance, hf > 0 and at least two non-empty inlets *)
+Lemma mix_total_hf_lemma st r ins eb hf :
+  wf_store st -> (forall s, In s st -> nonneg_stream s) ->
+  (r < length st)%nat -> (forall i, In i ins -> (i < length st)%nat) -> pkgs_ok st r ins ->
+  (exists r', mix st r ins eb hf = Ok r') \/ (mix st r ins eb hf = Err ERuntime /\ eb = true /\ hf <> O).
+Proof.
+  intros [WS CO] NN LR LI PK.
+  destruct (nth_error st r) as [rs|] eqn:GR; [|apply nth_error_None in GR; lia].
+  destruct (gets_all_total st ins LI) as [all GA].
+  unfold mix, gets. rewrite GR. cbn [bind]. rewrite GA. cbn [bind].
+  destruct (gets_all_spec _ _ _ GA) as [MF NE].
+  assert (In rs st) as INR by (eapply nth_error_In; eauto).
+  set (ne := filter (fun js => negb (isempty (snd js))) all).
+  assert (forall js, In js ne -> In (snd js) st /\ covered (spkg rs) (snd js)) as COV.
+  { intros js I. unfold ne in I. apply filter_In in I. destruct I as [I _].
+    pose proof (NE js I) as N. assert (In (snd js) st) as IS by (eapply nth_error_In; eauto).
+    split; auto. apply covered_of_pkgs_ok; auto.
+    intros c NZ. apply (PK rs GR (fst js) (snd js)); auto. rewrite <- MF. apply in_map; auto. }
+  assert (forall js, In js ne -> inl_covered (spkg rs) (to_inl r js) /\ inl_rows_ok (to_inl r js)) as A1.
+  { intros js I. destruct (COV js I) as [IS CV]. pose proof (WS _ IS) as [_ [WL _]].
+    unfold to_inl. destruct (Nat.eqb r (fst js)); simpl; auto.
+    destruct (snd js); simpl in *; auto. }
+  assert (forall js, In js ne -> inl_covered (spkg rs) (to_inl_copy js) /\ inl_rows_ok (to_inl_copy js)) as A2.
+  { intros js I. destruct (COV js I) as [IS CV]. pose proof (WS _ IS) as [_ [WL _]].
+    unfold to_inl_copy. destruct (snd js); simpl in *; auto. }
+  destruct ne as [|a [|b t]] eqn:EN; [left; eauto| |].
+  - left. destruct eb.
+    + destruct (Nat.eqb r (fst a)); [eauto|].
+      destruct (COV a (or_introl eq_refl)) as [IS CV].
+      apply copy_like_total; auto.
+    + apply imol_mix_total; [discriminate|]. intros i [E|[]]. subst. apply A1. left; auto.
+  - set (inls := if eb then map to_inl_copy (a :: b :: t) else map (to_inl r) (a :: b :: t)).
+    assert (inls <> []) as NEI by (unfold inls; destruct eb; discriminate).
+    assert (forall x, spkg x = spkg rs -> forall i, In i inls -> inl_covered (spkg x) i /\ inl_rows_ok i) as COVX.
+    { intros x PX i I. rewrite PX. unfold inls in I.
+      destruct eb; apply in_map_iff in I; destruct I as [js [E I]]; subst; auto. }
+    destruct (imol_mix_total rs inls NEI (COVX rs eq_refl)) as [r1 E]. rewrite E. cbn [bind].
+    destruct eb; [|left; eauto].
+    destruct (set_H hf r1) as [[r2 hf'] [|]] eqn:SH; [left; eauto|].
+    destruct (set_H_spec _ _ _ _ _ SH) as [P2 _].
+    match goal with |- context [set_phases r2 ?phs] => destruct (set_phases_total r2 phs) as [r3 SP] end.
+    { intros p I. apply in_app_iff. left; auto. }
+    rewrite SP. cbn [bind].
+    assert (spkg r3 = spkg rs) as P3.
+    { rewrite (set_phases_pkg _ _ _ SP), P2. apply (imol_mix_pkg _ _ _ E). }
+    destruct (imol_mix_total r3 inls NEI (COVX r3 P3)) as [r4 E4]. rewrite E4. cbn [bind].
+    destruct (set_H hf' r4) as [[r5 hf''] [|]]; [left; eauto|].
+    right. split; [reflexivity|]. split; [reflexivity|].
+    intros Z. subst hf. simpl in SH. inversion SH.
+Qed.
